@@ -119,3 +119,284 @@ Proof.
   intros. unfold Gen.Volatile.check_alignment, Impl.VolMem.vs_check_alignment.
   oeq_cases.
 Qed.
+
+(* =============================================================================================
+   Step kernels of src/volatile_memory.rs (second round): slice geometry, the guards of
+   Bytes<usize> for VolatileSlice, get_array_ref's size computation, VolatileArrayRef geometry,
+   the count computations of copy_to / copy_from. *)
+Ltac oeq_fin := first [ apply oeq_refl | reflexivity | exact I ].
+Lemma bind_bind {X Y Z} (x : outcome X) (f : X -> outcome Y) (g : Y -> outcome Z) :
+  bind (bind x f) g = bind x (fun a => bind (f a) g).
+Proof. destruct x; reflexivity. Qed.
+
+(* ---------------------------------------------------------------- C01: Impl/Volatile.v *)
+Definition vsl_gen (r : Impl.Volatile.vresult Impl.Volatile.vslice) : rres (N * N) :=
+  vres_gen (match r with
+            | Impl.Volatile.Ok s => Impl.Volatile.Ok (Impl.Volatile.vs_addr s, Impl.Volatile.vs_size s)
+            | Impl.Volatile.Err e => Impl.Volatile.Err e end).
+
+(* offset (:514-535): new address / size or Overflow / OutOfBounds with their payloads *)
+Lemma geneq_Volatile_vs_offset : forall m s count,
+  Val (Gen.Volatile.vs_offset (Impl.Volatile.vs_addr s) (Impl.Volatile.vs_size s) count)
+  = omap vsl_gen (Impl.Volatile.vs_offset m s count).
+Proof.
+  intros. unfold Gen.Volatile.vs_offset, Impl.Volatile.vs_offset.
+  destruct (checked_add (Impl.Volatile.vs_addr s) count); [|reflexivity].
+  destruct (checked_sub (Impl.Volatile.vs_size s) count); reflexivity.
+Qed.
+
+(* subslice (:494-507) *)
+Lemma geneq_Volatile_vs_subslice : forall m s offset count,
+  Val (Gen.Volatile.vs_subslice (Impl.Volatile.vs_len s) (Impl.Volatile.vs_addr s) offset count)
+  = omap vsl_gen (Impl.Volatile.vs_subslice m s offset count).
+Proof.
+  intros. unfold Gen.Volatile.vs_subslice, Impl.Volatile.vs_subslice.
+  rewrite geneq_Volatile_compute_end_offset.
+  destruct (Impl.Volatile.compute_end_offset (Impl.Volatile.vs_len s) offset count); reflexivity.
+Qed.
+
+(* split_at (:480-487): (start, end) = ((addr, mid), offset(mid)) *)
+Lemma geneq_Volatile_vs_split_at : forall m s mid,
+  Val (Gen.Volatile.vs_split_at (Impl.Volatile.vs_addr s) (Impl.Volatile.vs_size s) mid)
+  = omap (fun r => vres_gen
+            (match r with
+             | Impl.Volatile.Ok (a, b) =>
+                 Impl.Volatile.Ok ((Impl.Volatile.vs_addr a, Impl.Volatile.vs_size a),
+                                   (Impl.Volatile.vs_addr b, Impl.Volatile.vs_size b))
+             | Impl.Volatile.Err e => Impl.Volatile.Err e end))
+         (Impl.Volatile.vs_split_at m s mid).
+Proof.
+  intros. unfold Gen.Volatile.vs_split_at, Impl.Volatile.vs_split_at.
+  pose proof (geneq_Volatile_vs_offset m s mid) as H.
+  destruct (Impl.Volatile.vs_offset m s mid) as [r| |]; cbn [omap] in H; try discriminate H.
+  injection H as H. rewrite H. cbn [bind omap].
+  destruct r as [e|e]; reflexivity.
+Qed.
+
+(* get_array_ref (:152-186): nbytes = n * size_of::<T>() when both n and the product fit an
+   isize, else TooBig { nelements: n, size }.  size_of::<T>() <= isize::MAX holds for every Rust
+   type (hypothesis). *)
+Lemma geneq_Volatile_get_array_ref_nbytes : forall gs T offset n,
+  Impl.Volatile.e_size T <= ISZ_MAX ->
+  Impl.Volatile.vm_get_array_ref gs T offset n =
+  match Gen.Volatile.get_array_ref_nbytes (Impl.Volatile.e_size T) n with
+  | KNext nbytes =>
+      let* r := gs offset nbytes in
+      match r with
+      | Impl.Volatile.Err e => Val (Impl.Volatile.Err e)
+      | Impl.Volatile.Ok slice =>
+          let* _ := passert 167 (Impl.Volatile.vs_len slice =? nbytes) in
+          Val (Impl.Volatile.Ok (Impl.Volatile.VA (Impl.Volatile.vs_addr slice) n (Impl.Volatile.e_size T)))
+      end
+  | KReturn (RErr (E _ p)) => Val (Impl.Volatile.Err (Impl.Volatile.ETooBig (nth 0 p 0) (nth 1 p 0)))
+  | _ => Panic 0
+  end.
+Proof.
+  intros gs T offset n HT. unfold Impl.Volatile.vm_get_array_ref, Gen.Volatile.get_array_ref_nbytes, isize_try_from.
+  destruct (N.leb_spec n ISZ_MAX) as [Hn|Hn]; [|reflexivity].
+  rewrite checked_mul_i64_nonneg by assumption. unfold Impl.Volatile.checked_mul_isize.
+  destruct (n * Impl.Volatile.e_size T <=? ISZ_MAX); reflexivity.
+Qed.
+
+(* VolatileArrayRef::ref_at (:1134-1144): the assert and byteofs = element_size * index *)
+Lemma geneq_Volatile_va_ref_at_byteofs : forall m a index,
+  oeq (let* o := Gen.Volatile.va_ref_at_byteofs m (Impl.Volatile.va_nelem a) (Impl.Volatile.va_esz a) index in
+       match o with
+       | Some byteofs => let* p := Impl.Volatile.ptr_offset_isize m (Impl.Volatile.va_addr a) byteofs in
+                         Val (Impl.Volatile.VR p (Impl.Volatile.va_esz a))
+       | None => Panic 0
+       end)
+      (Impl.Volatile.va_ref_at m a index).
+Proof.
+  intros. unfold Gen.Volatile.va_ref_at_byteofs, Impl.Volatile.va_ref_at, Impl.Volatile.va_element_size.
+  rewrite ?bind_bind. apply oeq_bind; [apply oeq_passert|]. intros _.
+  rewrite ?bind_bind. apply oeq_bind; [apply oeq_pmul|]. intro b. cbn [bind]. apply oeq_refl.
+Qed.
+
+(* to_slice (:1117-1127), ptr_guard / ptr_guard_mut (:1102-1109): nelem * element_size *)
+Lemma geneq_Volatile_va_to_slice : forall m a,
+  oeq (Gen.Volatile.va_to_slice m (Impl.Volatile.va_addr a) (Impl.Volatile.va_nelem a) (Impl.Volatile.va_esz a))
+      (omap (fun s => (Impl.Volatile.vs_addr s, Impl.Volatile.vs_size s)) (Impl.Volatile.va_to_slice m a)).
+Proof.
+  intros. unfold Gen.Volatile.va_to_slice, Impl.Volatile.va_to_slice, Impl.Volatile.va_element_size, pmul.
+  destruct (_ <? W64), m; oeq_fin.
+Qed.
+Lemma geneq_Volatile_va_ptr_guard : forall m a,
+  oeq (Gen.Volatile.va_ptr_guard m (Impl.Volatile.va_addr a) (Impl.Volatile.va_nelem a) (Impl.Volatile.va_esz a))
+      (omap (fun g => (Impl.Volatile.pg_addr g, Impl.Volatile.pg_len g)) (Impl.Volatile.va_ptr_guard m a)).
+Proof.
+  intros. unfold Gen.Volatile.va_ptr_guard, Impl.Volatile.va_ptr_guard, Impl.Volatile.va_element_size,
+    Impl.Volatile.va_len, pmul.
+  destruct (_ <? W64), m; oeq_fin.
+Qed.
+Lemma geneq_Volatile_va_ptr_guard_mut : forall m a,
+  oeq (Gen.Volatile.va_ptr_guard_mut m (Impl.Volatile.va_addr a) (Impl.Volatile.va_nelem a) (Impl.Volatile.va_esz a))
+      (omap (fun g => (Impl.Volatile.pg_addr g, Impl.Volatile.pg_len g)) (Impl.Volatile.va_ptr_guard m a)).
+Proof.
+  intros. unfold Gen.Volatile.va_ptr_guard_mut, Impl.Volatile.va_ptr_guard, Impl.Volatile.va_element_size,
+    Impl.Volatile.va_len, pmul.
+  destruct (_ <? W64), m; oeq_fin.
+Qed.
+
+(* ---------------------------------------------------------------- C04: Impl/VolMem.v *)
+(* Bytes<usize> for VolatileSlice: the two guards of write (:697-705) and read (:726-734).
+   KReturn = the value returned by the guard; KNext = both guards passed and the model continues
+   with offset(addr) and the copy *)
+Lemma geneq_VolMem_vs_write_guard : forall hb h s buf addr,
+  match Gen.Volatile.vs_write_guard (Impl.VolMem.len buf =? 0) (Impl.VolMem.vs_size s) addr with
+  | KReturn r => Some (Impl.VolMem.vs_write hb h s buf addr) = option_map (fun x => (h, x)) (vm_abs r)
+  | KNext _ =>
+      Impl.VolMem.vs_write hb h s buf addr =
+      match Impl.VolMem.vs_offset hb s addr with
+      | Impl.VolMem.Err e => (h, Impl.VolMem.Err e)
+      | Impl.VolMem.Ok sl =>
+          let total := N.min (Impl.VolMem.vs_size sl) (Impl.VolMem.len buf) in
+          let '(h', n) := Impl.VolMem.copy_to_volatile_slice h sl buf total in (h', Impl.VolMem.Ok n)
+      end
+  | KBreak _ => False
+  end.
+Proof.
+  intros. unfold Gen.Volatile.vs_write_guard, Impl.VolMem.vs_write.
+  destruct (Impl.VolMem.len buf =? 0); [reflexivity|].
+  destruct (Impl.VolMem.vs_size s <=? addr); reflexivity.
+Qed.
+Lemma geneq_VolMem_vs_read_guard : forall hb h s buf addr,
+  match Gen.Volatile.vs_read_guard (Impl.VolMem.len buf =? 0) (Impl.VolMem.vs_size s) addr with
+  | KReturn r => Some (Impl.VolMem.vs_read hb h s buf addr) = option_map (fun x => (buf, x)) (vm_abs r)
+  | KNext _ =>
+      Impl.VolMem.vs_read hb h s buf addr =
+      match Impl.VolMem.vs_offset hb s addr with
+      | Impl.VolMem.Err e => (buf, Impl.VolMem.Err e)
+      | Impl.VolMem.Ok sl =>
+          let total := N.min (Impl.VolMem.vs_size sl) (Impl.VolMem.len buf) in
+          let '(b', n) := Impl.VolMem.copy_from_volatile_slice h buf sl total in (b', Impl.VolMem.Ok n)
+      end
+  | KBreak _ => False
+  end.
+Proof.
+  intros. unfold Gen.Volatile.vs_read_guard, Impl.VolMem.vs_read.
+  destruct (Impl.VolMem.len buf =? 0); [reflexivity|].
+  destruct (Impl.VolMem.vs_size s <=? addr); reflexivity.
+Qed.
+
+(* offset as modelled in VolMem (slice addresses are offsets into a heap based at hb; the model's
+   new address is not reduced mod 2^64, which agrees whenever the checked_add succeeded) *)
+Lemma geneq_VolMem_vs_offset : forall hb s count,
+  match Gen.Volatile.vs_offset (hb + Impl.VolMem.vs_addr s) (Impl.VolMem.vs_size s) count,
+        Impl.VolMem.vs_offset hb s count with
+  | ROk (a, sz), Impl.VolMem.Ok sl => a = hb + Impl.VolMem.vs_addr sl /\ sz = Impl.VolMem.vs_size sl
+  | RErr e, Impl.VolMem.Err e' => vm_abs (A:=unit) (RErr e) = Some (Impl.VolMem.Err e')
+  | _, _ => False
+  end.
+Proof.
+  intros. unfold Gen.Volatile.vs_offset, Impl.VolMem.vs_offset, checked_add.
+  destruct (N.ltb_spec (hb + Impl.VolMem.vs_addr s + count) W64) as [Hlt|Hge]; [|reflexivity].
+  destruct (checked_sub (Impl.VolMem.vs_size s) count); [|reflexivity].
+  cbn [Impl.VolMem.vs_addr Impl.VolMem.vs_size]. split; [|reflexivity].
+  unfold ptr_add. rewrite N.mod_small by assumption. lia.
+Qed.
+
+(* get_array_ref's size computation as modelled in VolMem *)
+Lemma geneq_VolMem_get_array_ref_nbytes : forall s size offset n, size <= ISZ_MAX ->
+  Impl.VolMem.vs_get_array_ref s size offset n =
+  match Gen.Volatile.get_array_ref_nbytes size n with
+  | KNext nb =>
+      match Impl.VolMem.vs_get_slice s offset nb with
+      | Impl.VolMem.Err e => Val (Impl.VolMem.Err e)
+      | Impl.VolMem.Ok slice => let* _ := passert 167 (Impl.VolMem.vs_size slice =? nb) in
+                                Val (Impl.VolMem.Ok {| Impl.VolMem.va_addr := Impl.VolMem.vs_addr slice; Impl.VolMem.va_nelem := n |})
+      end
+  | KReturn (RErr (E v _)) =>
+      if String.eqb v "TooBig" then Val (Impl.VolMem.Err Impl.VolMem.ETooBig) else Panic 0
+  | _ => Panic 0
+  end.
+Proof.
+  intros s size offset n HT. unfold Impl.VolMem.vs_get_array_ref, Gen.Volatile.get_array_ref_nbytes, isize_try_from.
+  destruct (N.leb_spec n ISZ_MAX) as [Hn|Hn]; [|reflexivity].
+  rewrite checked_mul_i64_nonneg by assumption.
+  destruct (n * size <=? ISZ_MAX); reflexivity.
+Qed.
+
+(* VolatileSlice::copy_to (:558-583): which of the three branches runs and with which count.
+   The opaque continuations are instantiated with the model's own continuations. *)
+Lemma geneq_VolMem_vs_copy_to : forall m h s t buf,
+  oeq (let* x := Gen.Volatile.vs_copy_to m (Impl.VolMem.ty_size t) (Impl.VolMem.len buf)
+                   (Impl.VolMem.vs_size s) (Impl.VolMem.vs_size s)
+                   (fun total => Val (Impl.VolMem.copy_from_volatile_slice h buf s total))
+                   (fun count => let* r := Impl.VolMem.vs_get_array_ref s (Impl.VolMem.ty_size t) 0 count in
+                                 match r with
+                                 | Impl.VolMem.Err _ => Panic 579
+                                 | Impl.VolMem.Ok source => Impl.VolMem.va_copy_to m h source t buf end)
+                   (fun n => Val (buf, n)) in x)
+      (Impl.VolMem.vs_copy_to m h s t buf).
+Proof.
+  intros. unfold Gen.Volatile.vs_copy_to, Impl.VolMem.vs_copy_to.
+  destruct (Impl.VolMem.ty_size t =? 1); [apply oeq_refl|].
+  destruct (Impl.VolMem.ty_size t =? 0); [apply oeq_refl|].
+  unfold pdiv. destruct (Impl.VolMem.ty_size t =? 0); cbn [bind]; oeq_fin.
+Qed.
+
+Definition one_call (l : list call) : option (string * N) :=
+  match l with [Call name [x]] => Some (name, x) | _ => None end.
+
+(* VolatileSlice::copy_from (:640-664) *)
+Lemma geneq_VolMem_vs_copy_from : forall m h s t buf,
+  oeq (let* l := Gen.Volatile.vs_copy_from m (Impl.VolMem.ty_size t) (Impl.VolMem.len buf)
+                   (Impl.VolMem.vs_size s) (Impl.VolMem.vs_size s) in
+       match l with
+       | [] => Val h
+       | [Call name [x]] =>
+           if String.eqb name "copy_to_volatile_slice"
+           then Val (fst (Impl.VolMem.copy_to_volatile_slice h s buf x))
+           else let* r := Impl.VolMem.vs_get_array_ref s (Impl.VolMem.ty_size t) 0 x in
+                match r with
+                | Impl.VolMem.Err _ => Panic 659
+                | Impl.VolMem.Ok dest => Impl.VolMem.va_copy_from m h dest t buf end
+       | _ => Panic 0
+       end)
+      (Impl.VolMem.vs_copy_from m h s t buf).
+Proof.
+  intros. unfold Gen.Volatile.vs_copy_from, Impl.VolMem.vs_copy_from, ocons.
+  destruct (Impl.VolMem.ty_size t =? 1); [apply oeq_refl|].
+  destruct (Impl.VolMem.ty_size t =? 0) eqn:E0; cbn [negb]; [apply oeq_refl|].
+  unfold pdiv. rewrite E0. cbn [bind String.eqb]. oeq_fin.
+Qed.
+
+(* VolatileArrayRef::copy_to (:1178-1212): byte fast path through to_slice() vs the element loop
+   under the ptr_guard (len * element_size may overflow: panic in debug) with total = min *)
+Lemma geneq_VolMem_va_copy_to : forall m h a t buf,
+  oeq (let* x := Gen.Volatile.va_copy_to m (Impl.VolMem.ty_size t) (Impl.VolMem.len buf)
+                   (Impl.VolMem.va_addr a) (Impl.VolMem.va_nelem a) (Impl.VolMem.ty_size t)
+                   (fun src total => Val (Impl.VolMem.copy_from_volatile_slice h buf
+                        {| Impl.VolMem.vs_addr := fst src; Impl.VolMem.vs_size := snd src |} total))
+                   (fun total => Val (Impl.VolMem.va_read_loop h t (Impl.VolMem.va_addr a) (N.to_nat total)
+                                      ++ Impl.VolMem.dropN total buf, total)) in x)
+      (Impl.VolMem.va_copy_to m h a t buf).
+Proof.
+  intros. unfold Gen.Volatile.va_copy_to, Impl.VolMem.va_copy_to, Gen.Volatile.va_to_slice,
+    Gen.Volatile.va_ptr_guard, Impl.VolMem.va_to_slice, pmul.
+  destruct (Impl.VolMem.ty_size t =? 1);
+    destruct (_ <? W64), m; cbn [bind fst snd Impl.VolMem.vs_size]; oeq_fin.
+Qed.
+
+(* VolatileArrayRef::copy_from (:1266-1298) *)
+Lemma geneq_VolMem_va_copy_from : forall m h a t buf copied,
+  oeq (let* l := Gen.Volatile.va_copy_from m (Impl.VolMem.ty_size t) (Impl.VolMem.len buf)
+                   (Impl.VolMem.va_addr a) (Impl.VolMem.va_nelem a) (Impl.VolMem.ty_size t) copied in
+       match l with
+       | [Call name [x]] =>
+           if String.eqb name "copy_to_volatile_slice"
+           then let* d := Impl.VolMem.va_to_slice m a (Impl.VolMem.ty_size t) in
+                Val (fst (Impl.VolMem.copy_to_volatile_slice h d buf x))
+           else Panic 0
+       | [Call name [_; _]] =>
+           Val (Impl.VolMem.va_write_loop h t (Impl.VolMem.va_addr a) (Impl.VolMem.takeN (Impl.VolMem.va_nelem a) buf))
+       | _ => Panic 0
+       end)
+      (Impl.VolMem.va_copy_from m h a t buf).
+Proof.
+  intros. unfold Gen.Volatile.va_copy_from, Impl.VolMem.va_copy_from, Gen.Volatile.va_to_slice,
+    Gen.Volatile.va_ptr_guard_mut, Impl.VolMem.va_to_slice, pmul, ocons.
+  destruct (Impl.VolMem.ty_size t =? 1);
+    destruct (_ <? W64), m; cbn [bind fst snd Impl.VolMem.vs_size String.eqb]; oeq_fin.
+Qed.
